@@ -37,6 +37,7 @@ class GlobIter(Contract):
         self.abs = z3.Bool('self_is_abs_pattern')
         self.fd_none = z3.Bool('self_dir_fd_is_None')
         self.dir_only = z3.Bool('dir_only')
+        self.root_bytes, self.name_is_str = z3.Bool('self_root_dir_is_bytes'), z3.Bool('entry_name_is_str')
         self.curdir = ObjV(z3.Const('curdir', Obj))
         self.cur_none = z3.Bool('curdir_is_None')
         cur = V('opt', None, isnone=self.cur_none, inner=self.curdir)
@@ -110,8 +111,19 @@ class GlobIter(Contract):
 
         def h_flags(eng, node, st, args):
             return ObjV(z3.Const('DIR_FLAGS', Obj))
+
+        def h_isinstance(eng, node, st, args):
+            what, cls = eng.dotted(node.args[0]), eng.dotted(node.args[1])
+            if what == 'self.root_dir' and cls == 'bytes':
+                return Bool(me.root_bytes)
+            if what == 'f.name' and cls == 'str':
+                return Bool(me.name_is_str)
+            raise pyvc.Unsupported(f'isinstance({what}, {cls})')
+
+        def h_fsencode(eng, node, st, args):
+            return U('fsencode', *args)
         return {'os.path.join': h_join, 'os.open': h_open, 'os.scandir': h_scandir, 'os.close': h_close, 'self._is_hidden': h_is_hidden,
-                'f.is_dir': h_is_dir, 'f.is_symlink': h_is_symlink, '_wcmatch.DIR_FLAGS': h_flags}
+                'f.is_dir': h_is_dir, 'f.is_symlink': h_is_symlink, '_wcmatch.DIR_FLAGS': h_flags, 'isinstance': h_isinstance, 'os.fsencode': h_fsencode}
 
     @property
     def iters(self):
@@ -152,7 +164,9 @@ class GlobIter(Contract):
                     return z3.BoolVal(False)
                 return z3.And(pyvc.eq(name, Str(want)), pyvc.truthy(is_dir), pyvc.truthy(hidden), z3.Not(pyvc.truthy(is_link)))
             e = ENTRY(st.ghost['$k2'])
-            nm = U('attr.name', ObjV(e))
+            raw = U('attr.name', ObjV(e))
+            # names have the type of the root: a str name (a descriptor scan always yields str) is encoded when the root is bytes
+            nm = ObjV(z3.If(z3.And(me.root_bytes, me.name_is_str), U('fsencode', raw).t, raw.t))
             return z3.And(pyvc.eq(name, nm), pyvc.truthy(is_dir) == ISDIR(e), pyvc.truthy(hidden) == HIDDEN(nm.t),
                           pyvc.truthy(is_link) == z3.And(ISDIR(e), ISLNK(e)), z3.Or(z3.Not(me.dir_only), ISDIR(e)))
         return {'yield:': [('Glob._iter.yields_(name,is_dir,hidden,is_link_only_for_directories)_of_the_entry_and_only_entries_passing_dir_only', y)]}
